@@ -97,7 +97,7 @@ def _as_int(a):
     return int(a)
 
 
-def build_real(graph, x0, with_undo=True):
+def build_real(graph, x0, with_undo=True, trace=False):
     import numpy
 
     from cogent3.maths.optimisers import ParameterOutOfBoundsError
@@ -157,7 +157,7 @@ def build_real(graph, x0, with_undo=True):
                 EvaluatedCell(f"v{k}", mk_calc(c), [objs[a] for a in c["args"]], recycling=c["rec"] or None)
             )
     with contextlib.redirect_stdout(io.StringIO()):
-        calc = Calculator(objs, {}, with_undo=with_undo)
+        calc = Calculator(objs, {}, with_undo=with_undo, trace=trace)
     return calc
 
 
@@ -185,6 +185,8 @@ def apply_real(calc, op):
         return _as_int(r), None
     except (ParameterOutOfBoundsError, ArithmeticError) as e:
         return None, type(e).__name__
+    except Exception as e:  # noqa  (an exception the calculator is not supposed to let out)
+        return None, "ESCAPED:" + type(e).__name__
 
 
 # --------------------------------------------------------------------------
@@ -245,7 +247,7 @@ def rand_history(rng, graph, x0, length, malformed=False):
     return ops
 
 
-def run_real(graph, x0, ops):
+def run_real(graph, x0, ops, trace=False):
     """-> (init snapshot or 'raises', [step dicts])"""
     from cogent3.maths.optimisers import ParameterOutOfBoundsError
 
@@ -254,7 +256,7 @@ def run_real(graph, x0, ops):
 
         with warnings.catch_warnings():
             warnings.simplefilter("ignore")
-            calc = build_real(graph, x0)
+            calc = build_real(graph, x0, trace=trace)
     except (ParameterOutOfBoundsError, ArithmeticError):
         return "raises", [], None
     init = snapshot(calc)
